@@ -283,6 +283,23 @@ PROPS = {
         note="write() returning 0 for a non-zero request is outside the alphabet (not produced by POSIX for the documented descriptor kinds)",
         assumptions=COMMON_ASSUMPTIONS,
     ),
+    "C16": dict(
+        level="model_checking",
+        runs=[dict(harness="c16", variant="fast", shards=16)],
+        deadline=dict(quick=240, thorough=1200),
+        rule="base documents: every value of nesting <= 1 with <= 2 children over leaves {0,12,-3,1.5,true,false,null,'s'} and names {a,b}, plus 12 nesting-2 / spaced documents; for each, every "
+             "extension kind at every admissible position computed from the reference token list: /*x*/ and //x in every gap, single quotes on every string and every member name, a comma "
+             "before every closing bracket of a non-empty container, all 2^n-1 case masks of every literal, control bytes at every position inside every string and name, one and two "
+             "superfluous zeros before every number, e / e+ / E- / E after every number, 8 kinds of trailing bytes; each text in default, strict and strict|allow-trailing mode; "
+             "non-trivial = distinct injected text",
+        bound=dict(quick="control bytes {01,09,0a,0d,1f}", thorough="all control bytes 01..1f"),
+        states_stat="cases", transitions_stat="calls",
+        technique="exhaustive enumeration of (document, extension kind, position) on the real tokener in three modes, reference reader for positions and expected values",
+        claim="every documented extension at every syntactically possible position of every base document is rejected by strict mode and accepted with the original value by default mode; "
+              "strict|allow-trailing accepts trailing bytes and reports where the value ended",
+        note="NaN/Infinity are not in the property's list of extensions and are not judged; 0x00 is end of input for the API and is excluded",
+        assumptions=COMMON_ASSUMPTIONS,
+    ),
 }
 
 NOT_APPLICABLE = {}
